@@ -81,6 +81,7 @@ type Contract struct {
 	Acquires    int        // see locks.go
 	HasAcquires bool
 	NoBlock    bool        // see locks.go
+	Counts     []string    // counts f,...: static calls of the named functions bump the ghost call counter of their first (pointer) argument (ghost.go)
 	LockProps  []string    // properties whose runs get the relock/unlock/balance obligations
 	GuardProps []string    // properties whose runs get the guarded-field obligations
 	Split      bool        // prove postconditions separately for each way into a return
@@ -476,6 +477,10 @@ func parseContractFile(rel, src string) (*pkgSpec, error) {
 					return nil, fmt.Errorf("%s:%d: acquires <level>", rel, ln)
 				}
 				cur.Acquires, cur.HasAcquires = n, true
+			case "counts":
+				for _, n := range strings.FieldsFunc(rest, func(r rune) bool { return r == ',' || r == ' ' }) {
+					cur.Counts = append(cur.Counts, n)
+				}
 			case "noblock":
 				// channel operations that may block are made with no levelled lock held (locks.go)
 				cur.Locks = true
